@@ -170,10 +170,19 @@ Definition queue_load (st : bstate) (s : spec) (range : option N) (asset in_dyn 
              pi_checksum := lock_get st s;
              pi_asset := asset; pi_dyn := in_dyn; pi_root := root |}] |>.
 
+(* the redirect table as a graph, for ModuleGraph::resolve *)
+Definition redirect_graph (reds : list (spec * spec)) : graph :=
+  {| g_kind := KAll; g_roots := []; g_slots := []; g_redirects := reds; g_imports := [];
+     g_schemes := []; g_has_node := false; g_errkinds := [] |}.
+
+(* the specifier a load request is about: the end of the known redirect chain (ModuleGraph::resolve) *)
+Definition load_target (st : bstate) (spec0 : spec) : spec :=
+  resolve (redirect_graph (st_redirects st)) spec0.
+
 (* load_with_redirect_count *)
 Definition load (W : world) (o : bopts) (st : bstate) (spec0 : spec) (range : option N)
            (asset in_dyn root : bool) (attr : N) (count : nat) : bstate :=
-  let s := match lookup spec0 (st_redirects st) with Some r => r | None => spec0 end in
+  let s := load_target st spec0 in
   if asset && negb (N.eqb attr 0) && negb (attr_allowed o attr) then
     set_slot st s (BErr (BUnsupportedAttr s (match range with Some r => r | None => 0 end) attr))
   else
@@ -183,6 +192,8 @@ Definition load (W : world) (o : bopts) (st : bstate) (spec0 : spec) (range : op
       | SBad => set_slot st s (BErr (BBadSpecifier s range))
       | SUrl => queue_load st s range asset in_dyn root attr count
       end in
+    (* a specifier that still redirects at the end of the chain: the known redirects loop *)
+    let proceed := if has_key s (st_redirects st) then set_slot st s (BErr (BLoad s range 1)) else proceed in
     match lookup s (st_slots st) with
     | Some sl =>
         let reload_now := match sl with BExternal true => negb asset | _ => false end in
@@ -534,9 +545,6 @@ Definition build (W : world) (o : bopts) (g : bgraph) (roots : list spec) (impor
   end.
 
 (* ---------- Builder::reload ---------- *)
-Definition redirect_graph (reds : list (spec * spec)) : graph :=
-  {| g_kind := KAll; g_roots := []; g_slots := []; g_redirects := reds; g_imports := [];
-     g_schemes := []; g_has_node := false; g_errkinds := [] |}.
 
 Fixpoint reload_specs (W : world) (o : bopts) (st : bstate) (specs : list spec) : bstate :=
   match specs with
